@@ -55,7 +55,7 @@ class C07(Prop):
         self.parse, self.parser_utils = parse, parser_utils
 
     def gen(self, r, i, run):
-        f = defgen.gen_def(r, containers=True)
+        f = defgen.gen_def(r, containers=True, doc_defaults=True)
         form = r.choice(["function", "function", "class_init"])
         if form == "class_init":
             f["method"] = True
@@ -141,8 +141,11 @@ class C07(Prop):
         pos = [x.arg for x in a.args if x.arg not in ("self", "cls")]
         op = {"op": "pair_args", "args": pos, "defaults": [ast.unparse(d) for d in a.defaults],
               "kwonly": [x.arg for x in a.kwonlyargs], "kw_defaults": [None if d is None else ast.unparse(d) for d in a.kw_defaults]}  # fmt: skip
+        c0 = copy.deepcopy(c)  # (the same signature under a docstring that documents no default: this layer is about the signature's)
+        for e in c0["facts"]["doc"]:
+            e.pop("default", None)
         try:
-            ir = self.parse_it(c)
+            ir = self.parse_it(c0)
         except Exception:
             return []
         got = []
@@ -210,9 +213,15 @@ class C07(Prop):
             if e is None and q.get("doc"):
                 fails.append({"what": "undocumented parameter acquired prose", "name": p["name"], "got": q.get("doc")})
             want_typ = (e or {}).get("typ") or p["ann"]
-            if want_typ is not None and q.get("typ") != want_typ and not (e and "typ" not in e and p["ann"] is None):
+            # (a documented default with no documented type: the type read off that default is documented information too)
+            inferred = type(ast.literal_eval(e["default"])).__name__ if e is not None and "default" in e and "typ" not in e else None
+            if want_typ is not None and q.get("typ") not in (want_typ, inferred) and not (e and "typ" not in e and p["ann"] is None):
                 fails.append({"what": "type is neither the documented one nor the annotation", "name": p["name"], "want": want_typ, "got": q.get("typ")})
-            if p["has_default"] and p["default"] is not None:
+            if e is not None and "default" in e:
+                want = ast.literal_eval(e["default"])
+                if "default" not in q or rt(q["default"]) != rt(want):
+                    fails.append({"what": "documented default does not take precedence", "name": p["name"], "want": rt(want), "signature": rt(p["default"]) if p["has_default"] else "<none>", "got": rt(q["default"]) if "default" in q else "<absent>"})
+            elif p["has_default"] and p["default"] is not None:
                 if "default" not in q or rt(q["default"]) != rt(p["default"]):
                     fails.append({"what": "signature default not carried", "name": p["name"], "want": rt(p["default"]), "got": rt(q["default"]) if "default" in q else "<absent>"})
         return fails
@@ -240,6 +249,12 @@ class C07(Prop):
                 return "C07-D3-documented-parameters-come-first"
         if f["style"] == "numpydoc" and f.get("trailer") and f["doc"]:
             return "C07-numpydoc-trailing-section-read-as-parameters"
+        if what == "signature default not carried" and f["style"] in ("numpydoc", "google") and fl.get("name") in documented:
+            # numpydoc / google: every entry documented after one with a documented default acquires an invented default
+            # (the zero of its type or None) - and that invented "documented" default then beats the signature's
+            k = documented.index(fl["name"])
+            if any("default" in e for e in f["doc"][:k]):
+                return "C07-D7-invented-default-beats-the-signature"
         if what == "signature default not carried" and "<ast." in str(fl.get("got")):
             p = [q for q in f["params"] if q["name"] == fl.get("name")]
             e = [d for d in f["doc"] if d["name"] == fl.get("name")]
